@@ -29,6 +29,39 @@ Proof. intros H. unfold expire. apply expire_fold_id. exact H. Qed.
 Lemma expire_if_id b c : no_ttl (idx c) = true -> expire_if b c = Ok c.
 Proof. intros H. destruct b; [apply expire_id; exact H|reflexivity]. Qed.
 
+(* ---------------------------------------------------------------- modelled store keys *)
+Lemma id_modelled_doc fs :
+  id_modelled (VDoc fs) = forallb (fun kv => id_modelled (snd kv)) fs.
+Proof.
+  change (id_modelled (VDoc fs))
+    with ((fix go (fs : list (string * value)) :=
+             match fs with [] => true | (_, x) :: fs' => id_modelled x && go fs' end) fs).
+  induction fs as [|[k v] fs IH]; [reflexivity|]. simpl. rewrite IH. reflexivity.
+Qed.
+
+(* BSON-equal values that patch leaves alone are both inside or both outside the store keys
+   of the model (no array, no aware datetime, recursively through sub-documents) *)
+Lemma bson_eq_id_modelled : forall a b,
+  bson_eq a b = true -> patch b = b -> id_modelled a = true -> id_modelled b = true.
+Proof.
+  induction a as [|x|z|e|s|us tz|n|fs IH|xs IH] using value_ind2; intros b H Pb Ma;
+    try (destruct b; try discriminate H; reflexivity).
+  - destruct b as [| | | | |us' tz'| | |]; try discriminate H.
+    destruct tz'; [discriminate Pb|reflexivity].
+  - destruct b as [| | | | | | |gs|]; try discriminate H.
+    rewrite bson_eq_doc in H. rewrite id_modelled_doc in *.
+    apply patch_doc_fixed in Pb.
+    revert gs H Pb Ma.
+    induction IH as [|[k v] fs Hv _ IHfs]; intros [|[k' v'] gs] H Pb Ma;
+      try discriminate H; [reflexivity|].
+    simpl in H. apply andb_true_iff in H. destruct H as [H1 H2].
+    unfold fld_eq in H1. simpl in H1. apply andb_true_iff in H1. destruct H1 as [_ Hvv].
+    simpl in Ma. apply andb_true_iff in Ma. destruct Ma as [Mv Mf].
+    inversion Pb as [|? ? Pv' Pgs]. subst. simpl in *.
+    rewrite (Hv v' Hvv Pv' Mv), (IHfs gs H2 Pgs Mf). reflexivity.
+  - discriminate Ma.
+Qed.
+
 (* ---------------------------------------------------------------- sublists *)
 Inductive sub {A} : list A -> list A -> Prop :=
 | sub_nil : sub [] []
@@ -257,7 +290,7 @@ Qed.
 (* ---------------------------------------------------------------- the effect of an insert *)
 Definition ins (l l' : store) : Prop :=
   l' = l \/
-  exists id data, store_get id l = None /\ id_modelled id = true /\
+  exists id data, store_get id l = None /\ id_modelled id = true /\ patch id = id /\
                   doc_id data = Some (patch id) /\ l' = l ++ [(id, data)].
 
 Lemma id_modelled_not_arr v : id_modelled v = true -> is_arr v = false.
@@ -265,13 +298,13 @@ Proof. destruct v; try reflexivity. discriminate. Qed.
 
 Lemma ins_knd l l' : ins l l' -> knd l -> knd l'.
 Proof.
-  intros [->|[id [data [Hg [_ [_ ->]]]]]] H; [exact H|].
+  intros [->|[id [data [Hg [_ [_ [_ ->]]]]]]] H; [exact H|].
   apply knd_app_one; [exact H|]. apply store_get_none. exact Hg.
 Qed.
 
 Lemma ins_all_ok l l' : ins l l' -> all_ok l -> all_ok l'.
 Proof.
-  intros [->|[id [data [Hg [Hm [Hd ->]]]]]] H; [exact H|].
+  intros [->|[id [data [Hg [Hm [_ [Hd ->]]]]]]] H; [exact H|].
   intros kd Hin. apply in_app_or in Hin. destruct Hin as [Hin|[<-|[]]]; [apply H; exact Hin|].
   split; [apply id_modelled_not_arr; exact Hm|].
   exists (patch id). split; [exact Hd|]. exists id. split; left; reflexivity.
@@ -280,7 +313,7 @@ Qed.
 Lemma ins_keys l l' :
   ins l l' -> exists tl, map fst l' = map fst l ++ tl /\ (List.length tl <= 1)%nat.
 Proof.
-  intros [->|[id [data [_ [_ [_ ->]]]]]].
+  intros [->|[id [data [_ [_ [_ [_ ->]]]]]]].
   - exists []. rewrite app_nil_r. split; [reflexivity|simpl; lia].
   - exists [id]. rewrite map_app. split; [reflexivity|simpl; lia].
 Qed.
@@ -291,27 +324,66 @@ Definition upd (l l' : store) : Prop := exists l1, sets l l l1 /\ ins l1 l'.
 Lemma upd_refl l : upd l l.
 Proof. exists l. split; [constructor|left; reflexivity]. Qed.
 
+(* ---------------------------------------------------------------- the keys are normalised *)
+(* every store key is a value patch leaves alone, inside the model's store keys *)
+Definition key_norm (k : value) : Prop := patch k = k /\ id_modelled k = true.
+Definition keys_ok (l : store) : Prop := forall kd, In kd l -> key_norm (fst kd).
+
+Lemma keys_ok_sub l l' : sub l l' -> keys_ok l' -> keys_ok l.
+Proof. intros Hs H kd Hin. apply H. eapply sub_In; eassumption. Qed.
+
+Lemma keys_ok_ins l l' : ins l l' -> keys_ok l -> keys_ok l'.
+Proof.
+  intros [->|[id [data [_ [Hm [Hp [_ ->]]]]]]] H; [exact H|].
+  intros kd Hin. apply in_app_or in Hin. destruct Hin as [Hin|[<-|[]]]; [apply H; exact Hin|].
+  split; assumption.
+Qed.
+
+Lemma keys_ok_store_set k d l : keys_ok l -> key_norm k -> keys_ok (store_set k d l).
+Proof.
+  intros Hl Hk kd Hin.
+  destruct (store_set_in _ _ _ _ Hin) as [Hold|[_ [[d0 [Hold _]]|Hkk]]].
+  - apply Hl. exact Hold.
+  - exact (Hl _ Hold).
+  - rewrite Hkk. exact Hk.
+Qed.
+
+Lemma sets_keys_ok T l l' : sets T l l' -> keys_ok T -> keys_ok l -> keys_ok l'.
+Proof.
+  induction 1 as [l|l k d d' l' Hin Hs _ IH]; intros HT H; [exact H|].
+  apply IH; [exact HT|]. apply keys_ok_store_set; [exact H|exact (HT _ Hin)].
+Qed.
+
 (* ---------------------------------------------------------------- the state invariant *)
-Definition InvD (l : store) : Prop := knd l /\ all_ok l.
+Definition InvD (l : store) : Prop := knd l /\ all_ok l /\ keys_ok l.
 Definition Inv (c : coll) : Prop := InvD (docs c) /\ no_ttl (idx c) = true.
 
 Lemma InvD_nil : InvD [].
-Proof. split; [exact I|intros ? []]. Qed.
+Proof. split; [exact I|split; intros ? []]. Qed.
 
 Lemma Inv_empty : Inv empty_coll.
 Proof. split; [exact InvD_nil|reflexivity]. Qed.
 
 Lemma InvD_sub l l' : sub l l' -> InvD l' -> InvD l.
-Proof. intros Hs [H1 H2]. split; [eapply knd_sub|eapply all_ok_sub]; eassumption. Qed.
+Proof.
+  intros Hs [H1 [H2 H3]].
+  split; [eapply knd_sub|split; [eapply all_ok_sub|eapply keys_ok_sub]]; eassumption.
+Qed.
 
 Lemma InvD_ins l l' : ins l l' -> InvD l -> InvD l'.
-Proof. intros Hi [H1 H2]. split; [eapply ins_knd|eapply ins_all_ok]; eassumption. Qed.
+Proof.
+  intros Hi [H1 [H2 H3]].
+  split; [eapply ins_knd|split; [eapply ins_all_ok|eapply keys_ok_ins]]; eassumption.
+Qed.
 
-Lemma InvD_sets T l l' : sets T l l' -> all_ok T -> InvD l -> InvD l'.
-Proof. intros Hs HT [H1 H2]. split; [eapply sets_knd|eapply sets_all_ok]; eassumption. Qed.
+Lemma InvD_sets T l l' : sets T l l' -> all_ok T -> keys_ok T -> InvD l -> InvD l'.
+Proof.
+  intros Hs HT HK [H1 [H2 H3]].
+  split; [eapply sets_knd|split; [eapply sets_all_ok|eapply sets_keys_ok]]; eassumption.
+Qed.
 
 Lemma InvD_upd l l' : upd l l' -> InvD l -> InvD l'.
 Proof.
   intros [l1 [Hs Hi]] H. eapply InvD_ins; [exact Hi|].
-  eapply InvD_sets; [exact Hs|exact (proj2 H)|exact H].
+  eapply InvD_sets; [exact Hs|exact (proj1 (proj2 H))|exact (proj2 (proj2 H))|exact H].
 Qed.
